@@ -119,3 +119,10 @@ Example C15_manual_excluded :
     (LC.view_of_model ex_cfg ex_world (ex_env true NoFault) (CKMount (bs "proc") (bs "/") (bs "proc") 0 []) [])
   = false.
 Proof. vm_compute. reflexivity. Qed.
+
+(* likewise for somebody editing a file by hand (CEdit) *)
+Example C15_edit_excluded :
+  C15.step_spec ex_cfg ex_world
+    (LC.view_of_model ex_cfg ex_world (ex_env true NoFault) (CEdit (bs "/x") (bs "y")) [])
+  = false.
+Proof. vm_compute. reflexivity. Qed.
